@@ -42,6 +42,8 @@ def neighbours(kind):
         return REC3, REC3[:-1]
     if kind == "add":
         return REC3[:-1], REC3[:-1] + [(0, 0, 1)]
+    if kind == "remove2":
+        return REC3, REC3[1:]
     if kind == "replace":
         return REC3, REC3[:-1] + [(0, 0, 0)]
     if kind == "replace2":
@@ -51,7 +53,9 @@ def neighbours(kind):
 
 def configs(tier, seed):
     cfgs = []
-    nbs = ["remove", "add"] if tier == "quick" else ["remove", "add", "replace"]
+    # MST, AIM and Adaptive Grid are add/remove-one (unbounded) mechanisms: replace-one is not their adjacency notion (a first thorough run
+    # wrongly included it for MST and duly reported twice the budget - a mistake of the harness, not of MST)
+    nbs = ["remove", "add"] if tier == "quick" else ["remove", "add", "remove2"]
     for nb in nbs:
         cfgs.append(dict(name="mst:%s" % nb, mech="mst", nb=nb, sizes=(2, 2, 2), cost=30, timeout=1500))
     for noise in ("gaussian", "laplace"):
@@ -67,7 +71,7 @@ def configs(tier, seed):
                      cost=60, timeout=1500, max_paths=600))
     if tier == "thorough":
         cfgs.append(dict(name="aim2:r7:add", mech="aim", rounds=7, nb="add", sizes=(2, 2), attrs="ab", workload=[("a", "b")], depth=6,
-                         cost=200, timeout=3000, max_paths=3000, core=False))
+                         cost=200, timeout=1500, max_paths=3000, core=False))
     for nb in (["remove"] if tier == "quick" else ["remove", "add"]):
         for split in ([None] if tier == "quick" else [None, [0.1, 0.1, 0.8]]):
             for targets in ([[]] if tier == "quick" else [[], ["b"]]):
